@@ -33,6 +33,20 @@ def line_color_level(line):
     return COLOR_LEVEL.get(m.group(1), '?')
 
 
+def lines_with_levels(text):
+    """[(line, colour level)] where the level is the colour in force at the start of the line (colours may span lines)."""
+    out = []
+    cur = 'info'
+    for line in text.split('\n'):
+        m = re.match(r'^\x1b\[0;(\d+)m', line)
+        start = COLOR_LEVEL.get(m.group(1), '?') if m else cur
+        out.append((line, start))
+        # colour in force at the end of this line
+        for mm in re.finditer(r'\x1b\[(0;(\d+)|0)m', line):
+            cur = COLOR_LEVEL.get(mm.group(2), '?') if mm.group(2) else 'info'
+    return out
+
+
 class TextReport:
     def __init__(self, text):
         self.raw = text
